@@ -53,6 +53,7 @@ struct Thread {
     void *(*fn)(void *) = nullptr;
     void *arg = nullptr;
     unsigned consecutive = 0;
+    unsigned alone_spins = 0;
     uint32_t prio = 0;
 };
 
@@ -115,6 +116,23 @@ uint32_t next_choice(Thread *self, size_t n) {
     }
 }
 
+void expire_deadlines() {
+    for (auto *t : G.th)
+        if (t->st != DONE && t->st != RUNNABLE && t->deadline && t->deadline <= G.clock_ns) {
+            t->timed_out = true;
+            t->deadline = 0;
+            if (t->st == B_COND) {
+                auto &w = G.cond_waiters[t->wait_obj];
+                for (size_t i = 0; i < w.size(); i++)
+                    if (w[i] == t->id) {
+                        w.erase(w.begin() + (long)i);
+                        break;
+                    }
+            }
+            t->st = RUNNABLE;
+        }
+}
+
 // Picks the thread that continues.  self may be runnable or not.
 Thread *choose(Thread *self) {
     for (;;) {
@@ -130,8 +148,24 @@ Thread *choose(Thread *self) {
         if (!R.empty()) {
             if (R.size() == 1) {
                 R[0]->consecutive = 0; // alone: not a spin over other runnable threads
+                // A thread that keeps taking decisions while everybody else sleeps or waits with a
+                // timeout is polling (e.g. join_all_managed spins while one thread is left): real time
+                // passes while it does, so after a while the earliest deadline expires.
+                if (R[0] == self && ++self->alone_spins >= G.cfg.alone_spin_limit) {
+                    self->alone_spins = 0;
+                    uint64_t best = 0;
+                    for (auto *t : G.th)
+                        if (t->st != DONE && t->st != RUNNABLE && t->deadline && (!best || t->deadline < best)) best = t->deadline;
+                    if (best) {
+                        if (best > G.clock_ns) G.clock_ns = best;
+                        G.stats.time_jumps++;
+                        expire_deadlines();
+                        continue;
+                    }
+                }
                 return R[0];
             }
+            if (self) self->alone_spins = 0;
             if (G.cfg.mode == PCT) {
                 // priority change point: current thread drops to the lowest priority
                 while (G.cp_pos < G.cfg.change_points.size() && G.cfg.change_points[G.cp_pos] <= G.stats.decisions) {
@@ -167,20 +201,7 @@ Thread *choose(Thread *self) {
         if (G.cfg.max_virtual_ns && G.clock_ns - 1000ull * 1000000000ull > G.cfg.max_virtual_ns)
             fatal(3, "virtual time limit exceeded: threads keep waking up on timeouts but the program never finishes");
         G.stats.time_jumps++;
-        for (auto *t : G.th)
-            if (t->st != DONE && t->st != RUNNABLE && t->deadline && t->deadline <= G.clock_ns) {
-                t->timed_out = true;
-                t->deadline = 0;
-                if (t->st == B_COND) {
-                    auto &w = G.cond_waiters[t->wait_obj];
-                    for (size_t i = 0; i < w.size(); i++)
-                        if (w[i] == t->id) {
-                            w.erase(w.begin() + (long)i);
-                            break;
-                        }
-                }
-                t->st = RUNNABLE;
-            }
+        expire_deadlines();
     }
 }
 
@@ -460,8 +481,12 @@ int __wrap_pthread_create(pthread_t *out, const pthread_attr_t *attr, void *(*fn
 }
 
 static Thread *find_by_real(pthread_t r) {
-    for (auto *t : G.th)
-        if (t->id != 0 && pthread_equal(t->real, r)) return t;
+    // pthread_t values are reused once a thread has been joined: the newest match that has not
+    // been joined/detached yet is the live one
+    for (size_t i = G.th.size(); i-- > 1;) {
+        Thread *t = G.th[i];
+        if (pthread_equal(t->real, r) && t->joins == 0 && !t->detached) return t;
+    }
     return nullptr;
 }
 
